@@ -159,7 +159,7 @@ def check_cli(job):
 
 def run(ctx):
     quick = ctx.tier == "quick"
-    maxnest, depth, cfgdepth = (3, 5, 3) if quick else (4, 9, 4)
+    maxnest, depth, cfgdepth = (3, 5, 3) if quick else (4, 8, 3)
     case = common.rot(["lower", "upper", "mixed"])[0]
     ctx.cov["bounds"] = {"max_definition_nesting": maxnest, "max_history": depth,
                          "all_configurations_up_to_history": cfgdepth - 1, "four_configurations_at_history": cfgdepth, "configurations": len(configs(True)),
